@@ -86,6 +86,9 @@ SameDefs(d) == {d}
 (* "an END anywhere stops all three": flows made of built-in END nodes only - which need no filter -,  *)
 (* END first, END twice, END under an alias, next to empty flows and one-filter flows; filter lists   *)
 (* that are empty, the main one, or declare f with kind K1 (then r2 is not a result of f there).      *)
+(* The outcome the contract allows depends on the configuration only: the GlobalFilter harness also  *)
+(* reaches every accepted configuration by an update (GlobalFilter.Inherit) from another accepted one *)
+(* - with / without a before or after pipeline, with / without filters - and judges it the same way. *)
 DegDefs     == {StdDefs, <<>>}
 DegSideDefs(d) == {<<>>, StdDefs, <<F("f", "K1")>>}
 DegNodesM   == {N("f", "", "", NJ), N("g", "", "", J(END, NoJump, NoJump)), N(END, "", "", NJ)}
